@@ -10,7 +10,7 @@ late = [sid for sid, m in rows if re.search(r'first (MISSED|UNDECIDED)|would hav
 esc = lambda t: t.replace('|', '\\|')
 txt = '''## 9. Seeded changes (independent sub-agents, each given only the property text and a scratch worktree)
 
-%d changes in twelve batches. Each was produced by a fresh sub-agent that saw only the property text (plus, from batch 2 on, a one-line
+%d changes in thirteen batches. Each was produced by a fresh sub-agent that saw only the property text (plus, from batch 2 on, a one-line
 "do not reuse this site" hint naming earlier changes) and its own worktree under /tmp; each was **confirmed** with
 `tools/seed_confirm.sh` (existing suite passes with the change; the demonstration fails with it and passes without it; log in
 `seeded/<id>/confirm.log`) and **evaluated** with `tools/seed_eval.sh` (the change applied in a scratch worktree, the checks pointed at
